@@ -65,6 +65,10 @@ DIRECTED3 = [r"\s", r"\s+", r"[\s]", r"[\sx]", r"[^\s]", r"a\sb", r"(\s|v)*", r"
 SIGMA3 = " \t\n\r\x0b\x0cvntrf"
 DIRECTED4 = [r"[^{}]", r"[^}a]", r"\{[^{}]*\}", r"[{}]", r"[^x-{]", r"[z-~]", r"[^\{]", r"a[{]b", r"[^}]*"]
 SIGMA4 = "{}ax|~"
+# a caret as a member of a set (literal unless it is the first character), alone, repeated, with ranges and duplicates
+DIRECTED5 = [r"[^^]", r"[^a^]", r"[^^a]", r"[a^]", r"[\^a]", r"[^\^]", r"[^a-b^]", r"([^^|]b)*", r"[a^b]", r"[^^^]", r"[ab^^]", r"[^aa]",
+             r"[aab]", r"[a-ba]", r"[^a-bb]", r"x[^a-b^]+", r"[^^]*", r"^" if False else r"[\^]", r"[^|^]", r"[|^]"]
+SIGMA5 = "^ab|x"
 
 
 def generate(tier, seed, work, stats):
@@ -85,6 +89,8 @@ def generate(tier, seed, work, stats):
         cases.append(dict(pat=pat, den=[], ast={}, family="directed", sigma=SIGMA3, maxlen=2))
     for pat in DIRECTED4:
         cases.append(dict(pat=pat, den=[], ast={}, family="directed", sigma=SIGMA4))
+    for pat in DIRECTED5:
+        cases.append(dict(pat=pat, den=[], ast={}, family="directed", sigma=SIGMA5))
     for c in cases:
         c["tier"] = tier
     return cases
